@@ -1165,10 +1165,10 @@ func c20RunContinuation(tr *Trace, us []sdk.AccAddress, a, b *chain.App, ctxs [2
 		} else {
 			tr.Count("cont:different")
 		}
-		if strings.HasPrefix(ra, "ok") {
-			tr.Count("cont:A-ok")
+		if strings.HasPrefix(ra, "err") || strings.HasPrefix(ra, "false") || ra == "none" {
+			tr.Count("cont:A-refused")
 		} else {
-			tr.Count("cont:A-err")
+			tr.Count("cont:A-accepted")
 		}
 	}
 	hdr2 := tmproto.Header{Height: hdr.Height + 1, Time: hdr.Time.Add(25 * time.Hour)}
